@@ -30,8 +30,7 @@ THOROUGH = [("Generator_t1", "MaxLen=5, templates 1-8"), ("Generator_t2", "MaxLe
             ("Generator_t5", "MaxLen=6, templates 4 (ignore_ge), 9 (yf_c)"),
             ("Generator_t6", "MaxLen=6, templates 12 (yf_ignore_c), 26 (yf_drop_c)"),
             ("Generator_t7", "MaxLen=6, templates 11 (nested_fin), 30 (co_tryfin)"),
-            ("Generator_t8", "MaxLen=5, templates 32-35 (yield from plain iterators)"),
-            ("Generator_t9", "MaxLen=6, templates 32 (yi_list), 35 (yf_yi)")]
+            ("Generator_t8", "MaxLen=5, templates 32-35 (yield from plain iterators)")]
 
 
 def classify(case, coro, want, got):
